@@ -62,7 +62,7 @@ def run(ctx):
         "NsReader::read_text returns the raw slice between the tags (no trimming, no unescaping)",
     ]
     loops = R.reader_loops(fx)
-    chk.floor("C13 reader loops", len(loops), 23)
+    chk.floor("C13 reader loops", len(loops), 15)
     chk.extra["reader_loops"] = [lp.label() for lp in loops]
     expanded = reader_config(chk, fx)
     for lp in loops:
